@@ -15,10 +15,18 @@ use crate::stuck;
 use std::thread::JoinHandle;
 use std::time::{Duration, Instant};
 
+pub static TRACE: std::sync::atomic::AtomicBool = std::sync::atomic::AtomicBool::new(false);
+macro_rules! tr {
+    ($($a:tt)*) => {
+        if TRACE.load(std::sync::atomic::Ordering::Relaxed) {
+            eprintln!($($a)*);
+        }
+    };
+}
 pub const MAIN_ROLE: u32 = 20;
 pub const MAIN_SLOT: usize = 40;
 /// "never" for timed waiters that are expected to be completed by a peer
-pub const LONG_US: u32 = 120_000_000;
+pub const LONG_US: u32 = 4_000_000_000;
 
 pub enum Outcome {
     Held,
@@ -29,6 +37,7 @@ pub enum Outcome {
 struct Worker<T: Payload> {
     jh: Option<JoinHandle<ThreadCtx<T>>>,
     ctx: Option<ThreadCtx<T>>,
+    #[allow(dead_code)]
     slot: usize,
     /// (index of the event in the worker's log, time) registration confirmations
     regs: Vec<(usize, u64)>,
@@ -72,7 +81,7 @@ impl<T: Payload> Scn<T> {
         let slot = stuck::slot(MAIN_SLOT);
         slot.begin_thread();
         main.status = Some(slot);
-        Scn { cap, main, workers: vec![], viols: vec![], inconclusive: None, main_regs: vec![], s0: 1, r0: 1, grace: Duration::from_secs(20), t_start: Instant::now(), hits0: fp::hits() }
+        Scn { cap, main, workers: vec![], viols: vec![], inconclusive: None, main_regs: vec![], s0: 1, r0: 1, grace: Duration::from_secs(if cfg!(miri) { 10_000_000 } else { 20 }), t_start: Instant::now(), hits0: fp::hits() }
     }
     pub fn hits(&self) -> [u64; kanal::verif::N_POINTS] {
         fp::hits_delta(&self.hits0)
@@ -135,7 +144,9 @@ impl<T: Payload> Scn<T> {
                     }
                 }
                 for op in ops {
+                    tr!("  worker {} exec {:?}", w, op);
                     ctx.exec(op);
+                    tr!("  worker {} done {:?}", w, ctx.log.last().map(|e| e.res.clone()));
                 }
                 slot.finish();
                 ctx
@@ -157,6 +168,7 @@ impl<T: Payload> Scn<T> {
     /// Waits until the wait list holds `n` entries (or the worker finished) and
     /// pins "worker w's `k`-th op had registered by now" for the linearizability check.
     pub fn wait_registered(&mut self, w: usize, k: usize, n: usize) -> bool {
+        tr!("wait_registered w={} n={}", w, n);
         let t0 = Instant::now();
         let mut spins = 0;
         loop {
@@ -221,6 +233,7 @@ impl<T: Payload> Scn<T> {
     /// Joins worker `w`; a worker that stays inside a blocking call although
     /// nothing it waits for is outstanding is a C06 violation (stuck detector).
     pub fn join(&mut self, w: usize) -> bool {
+        tr!("join w={}", w);
         if self.workers[w].ctx.is_some() {
             return true;
         }
@@ -269,6 +282,9 @@ impl<T: Payload> Scn<T> {
         if stuck_any || self.viols.iter().any(|v| v.0 == "C06") {
             // threads may still touch the channel: do not run more code on it
             let v = std::mem::take(&mut self.viols);
+            let mut dump: Vec<String> = vec!["(workers are stuck: their logs cannot be collected; main actor's log follows)".into()];
+            dump.extend(self.main.log.iter().map(|e| e.short()));
+            samples.insert(0, dump);
             std::mem::forget(self);
             return Outcome::Violated(v);
         }
